@@ -366,13 +366,41 @@ func (w *World) buildServers() {
 			return opt.MaxDeviceServiceInfoSize, nil
 		}
 	}
-	w.MfgHandler = &fdohttp.Handler{Tokens: w.MfgStore, DIResponder: w.DI}
-	w.RVHandler = &fdohttp.Handler{Tokens: w.RVStore, TO0Responder: w.TO0, TO1Responder: w.TO1}
-	w.OwnerHandler = &fdohttp.Handler{Tokens: w.OwnerStore, TO2Responder: w.TO2}
+	w.MfgHandler = &fdohttp.Handler{Tokens: w.MfgStore, DIResponder: hangResponder{w.DI}}
+	w.RVHandler = &fdohttp.Handler{Tokens: w.RVStore, TO0Responder: hangResponder{w.TO0}, TO1Responder: hangResponder{w.TO1}}
+	w.OwnerHandler = &fdohttp.Handler{Tokens: w.OwnerStore, TO2Responder: hangResponder{w.TO2}}
 	if !opt.Separate {
-		h := &fdohttp.Handler{Tokens: w.OwnerStore, DIResponder: w.DI, TO0Responder: w.TO0, TO1Responder: w.TO1, TO2Responder: w.TO2}
+		h := &fdohttp.Handler{Tokens: w.OwnerStore, DIResponder: hangResponder{w.DI}, TO0Responder: hangResponder{w.TO0}, TO1Responder: hangResponder{w.TO1}, TO2Responder: hangResponder{w.TO2}}
 		w.MfgHandler, w.RVHandler, w.OwnerHandler = h, h, h
 	}
+}
+
+type hangKey struct{}
+
+// hangResponder cancels the request context (Exchange.Hangup) once the wrapped responder has
+// produced a session-ending answer; everything else is passed through.
+type hangResponder struct{ protocol.Responder }
+
+func (h hangResponder) Respond(ctx context.Context, msgType uint8, msg io.Reader) (uint8, any) {
+	rt, r := h.Responder.Respond(ctx, msgType, msg)
+	if cancel, ok := ctx.Value(hangKey{}).(context.CancelFunc); ok {
+		switch rt {
+		case protocol.ErrorMsgType, protocol.DIDoneMsgType, protocol.TO0AcceptOwnerMsgType, protocol.TO1RVRedirectMsgType:
+			cancel()
+		}
+	}
+	return rt, r
+}
+
+// CryptSession is what the handler needs from the TO2 responder.
+func (h hangResponder) CryptSession(ctx context.Context) (kex.Session, error) {
+	cs, ok := h.Responder.(interface {
+		CryptSession(context.Context) (kex.Session, error)
+	})
+	if !ok {
+		return nil, fmt.Errorf("no crypt session")
+	}
+	return cs.CryptSession(ctx)
 }
 
 // aioKeys adapts the world to the two interfaces of fdo.AllInOne.
@@ -499,6 +527,10 @@ type Exchange struct {
 	Method  string
 	Path    string
 	NoCLen  bool // send without a Content-Length
+	// Hangup: the client goes away while the server processes the request: the request context is
+	// cancelled as soon as the responder has decided to end the session (error message or the
+	// protocol's final unencrypted message), i.e. before the handler invalidates the token.
+	Hangup bool
 	BigCLen bool // announce a Content-Length above the limit
 
 	ReqType   uint8
@@ -602,6 +634,11 @@ func Serve(h http.Handler, x *Exchange) {
 	req.Header.Set("Content-Type", "application/cbor")
 	if x.ReqToken != "" {
 		req.Header.Set("Authorization", x.ReqToken)
+	}
+	if x.Hangup {
+		ctx, cancel := context.WithCancel(req.Context())
+		defer cancel()
+		req = req.WithContext(context.WithValue(ctx, hangKey{}, cancel))
 	}
 	rec := httptest.NewRecorder()
 	func() {
